@@ -82,6 +82,18 @@ pub fn grid(tier: &str) -> Vec<TeCfg> {
         v.push(mk("ab", 2, 2, 4, "euclidean", 2));
         v.push(mk("ab", 8, 1, 1, "cosine", 1));
     }
+    // tiny index (capacity 3 with ids {1,2,3}): a few writes fill it and the next one runs tombstone
+    // compaction, which renumbers the canonical store under whatever the caches and the
+    // recent-write tier still hold
+    let mut tiny = vec![mk("lru", 2, 8, 8, "euclidean", 2), mk("learned", 1, 2, 4, "cosine", 1)];
+    if tier == "thorough" {
+        tiny.push(mk("ab", 2, 1, 2, "euclidean", 1));
+        tiny.push(mk("learned_semantic", 8, 8, 8, "inner_product", 2));
+    }
+    for mut c in tiny {
+        c.hnsw_capacity = 3;
+        v.push(c);
+    }
     v
 }
 
@@ -94,6 +106,7 @@ pub struct Stats {
     pub c04: SigBag,
     pub c20: SigBag,
     pub poke_histories: u64,
+    pub refused_full: u64,
     pub first_touch_histories: u64,
     pub emergency_drains: u64,
     pub max_l1a: usize,
@@ -163,7 +176,21 @@ pub fn run_history_first(cfg: &TeCfg, hist: &[TOp], st: &mut Stats, quiet: bool,
         }
         let cold_before = if matches!(op, TOp::Flush { .. } | TOp::Tick) { Some(dump_backend(te.engine.cold_tier())) } else { None };
         let emerg_before = te.engine.stats().hot_tier_emergency_evictions;
+        // tiny-index configurations (hnsw_capacity 3: every few writes run tombstone compaction):
+        // a write may be legitimately refused because the index holds `capacity` LIVE documents
+        let live_before = model.docs.len();
+        let new_ids = match op {
+            TOp::Ins { id, .. } => (!model.docs.contains_key(id)) as usize,
+            TOp::BulkLoad { docs } => docs.iter().filter(|(id, _, _)| !model.docs.contains_key(id)).count(),
+            _ => 0,
+        };
         let r = apply(&te, &mut model, op, Some(&rt));
+        if let Err(e) = &r {
+            if cfg.hnsw_capacity <= 4 && matches!(op, TOp::Ins { .. } | TOp::BulkLoad { .. }) && live_before + new_ids.max(1) > cfg.hnsw_capacity && (e.contains("full") || e.contains("bulk_load loaded=")) {
+                st.refused_full += 1;
+                break;
+            }
+        }
         if te.engine.stats().hot_tier_emergency_evictions > emerg_before {
             st.emergency_drains += 1;
         }
@@ -400,6 +427,7 @@ pub fn explore(tier: &str, first_touch: bool) -> (Stats, Vec<TeCfg>, usize, usiz
         tot.c04.merge(s.c04);
         tot.c20.merge(s.c20);
         tot.poke_histories += s.poke_histories;
+        tot.refused_full += s.refused_full;
         tot.first_touch_histories += s.first_touch_histories;
         tot.emergency_drains += s.emergency_drains;
         tot.max_l1a = tot.max_l1a.max(s.max_l1a);
@@ -460,6 +488,7 @@ pub fn run(prop: &str, tier: &str, replay: Option<&str>) -> i32 {
         ev.assume("evicted/drained content staying readable is the C04 read oracle, which runs in the same exploration");
     } else {
         ev.set("first_touch_histories", tot.first_touch_histories);
+        ev.set("histories_ended_by_a_legitimate_index_full_refusal", tot.refused_full);
         ev.set("rule", format!("all {nletters}^{depth} TieredEngine histories per configuration, each run twice (and every quiet history that contains an adversarial poke four more times, with get_document_with_metadata / get_embedding_cache_aware / get_metadata / bulk_query as the FIRST reader of every id instead of query, since the first read scrubs what it finds): reading after EVERY step, and quiet (reads only after the last step, for every length 2..{depth}, because a read scrubs the stale copy it finds and would mask defects that need it to survive until a drain); at each read point every read flavour (query, get_document_with_metadata, get_embedding_cache_aware, get_metadata, exists, bulk_query with/without embeddings) is issued for ids {{1,2,3}} and compared with the reference map; drain and tick steps must leave the canonical store dump unchanged; non-trivial = histories containing an adversarial poke (stale/corrupt L1a or hot-tier entries planted through harness handles)"));
         ev.set("reads_checked", tot.reads);
         ev.set("emergency_drains_triggered", tot.emergency_drains);
